@@ -117,6 +117,8 @@ def c10(pid, tier, seed):
                                                       "per_sec_pos", "Pos", "wide_prefix", "binary_msg"), Aligns=("", ">"), Widths=("", "3")),
         # style words the colour library does not know (.italic, .orange/blue, .red.sparkly/grey) on msg, prefix, pos and bar-less keys
         grammar("g_unknown_styles", 3 if q else 4, 2, (97,), Keys=("msg", "pos", "k", "zz"), Aligns=("", ">"), Widths=("", "3"), Styles=("u", "ub", "ru", "r")),
+        # an opening brace followed by a TAB stands for itself like one followed by a blank or a line break
+        grammar("g_brace_tab", 3 if q else 4, 2, (97, 34), Specials=("BT", "BS", "RB"), Keys=("pos", "k")),
         grammar("g_json", 4 if q else 5, 3, (34, 58, 32, 97), Specials=("LB", "RB", "BS"), Keys=("k", "pos")),
         grammar("g_literals", 3 if q else 4, 2, (97, 58, 33, 46, 47, 60, 55, 233, 1000), Specials=("LB", "BS"), Keys=("k",), Widths=("", "1")),
         grammar("g_deep", 14, 5, (97, 32, 34, 58, 55, 233), Specials=("LB", "RB", "NL", "BS", "BN"), Keys=ALLKEYS, Aligns=("", "<", "^", ">"),
